@@ -130,7 +130,7 @@ pub mod fasta {
     }
     /// the scan stopped at the end of b: e is |b|, or the LF that is the last byte of b
     pub open spec fn at_end(b: Seq<u8>, e: int) -> bool {
-        e == b.len() || (e == b.len() - 1 && b[e] == 10u8)
+        (e == b.len() && !(b.len() > 0 && b[b.len() - 1] == 10u8)) || (e == b.len() - 1 && b[e] == 10u8)
     }
     /// last record of the input: the final entry of l is the end of the last line (final LF or |b|)
     pub open spec fn eofrec_l(b: Seq<u8>, start: int, l: Seq<int>, e: int) -> bool {
@@ -194,7 +194,7 @@ pub mod fasta {
         requires 0 <= a, a + w.len() <= f.len(), w == f.subrange(a, a + w.len())
         ensures complete_l(w, start, l, e) ==> complete_l(f, a + start, shl(l, a), a + e),
                 partial_l(w, start, l, e) ==> partial_l(f, a + start, shl(l, a), a + e) || (e == w.len() && 0 <= start <= e && shl(l, a) == lfs(f, a + start, a + e)),
-                eofrec_l(w, start, l, e) && a + w.len() == f.len() ==> eofrec_l(f, a + start, shl(l, a), a + e),
+                eofrec_l(w, start, l, e) && a + w.len() == f.len() && start < w.len() ==> eofrec_l(f, a + start, shl(l, a), a + e),
     {
         if 0 <= start <= e <= w.len() {
             lemma_lfs_window(f, a, w, start, e);
@@ -203,7 +203,8 @@ pub mod fasta {
             }
             if e < w.len() { assert(w[e] == f[a + e]); }
             if e >= 1 && e - 1 < w.len() { assert(w[e - 1] == f[a + e - 1]); }
-            if eofrec_l(w, start, l, e) && a + w.len() == f.len() {
+            if eofrec_l(w, start, l, e) && a + w.len() == f.len() && start < w.len() {
+                if w.len() > 0 { assert(w[w.len() - 1] == f[f.len() - 1]); }
                 assert forall|x: int| a + start <= x < a + e && #[trigger] f[x] == 10u8 implies x + 1 < f.len() && f[x + 1] != 62u8 by {
                     assert(w[x - a] == f[x]); assert(w[x - a + 1] == f[x + 1]);
                 }
@@ -296,6 +297,7 @@ pub mod fasta {
 //@spec
         requires
             old(self).buf_reader.wf(),
+            old(self).buf_pos.start < old(self).b().len() && old(self).b()[old(self).buf_pos.start as int] == 62u8,
             partial(old(self).b(), old(self).buf_pos.start as int, old(self).buf_pos.seq_pos@, old(self).search_pos as int),
         ensures
             [C01,C03,C04,C05,C06|fasta._search.frame] final(self).same_io(old(self)) && final(self).state == old(self).state,
@@ -348,6 +350,7 @@ pub mod fasta {
 //@spec
         requires
             old(self).buf_reader.wf(),
+            old(self).buf_pos.start < old(self).b().len() && old(self).b()[old(self).buf_pos.start as int] == 62u8,
             partial(old(self).b(), old(self).buf_pos.start as int, old(self).buf_pos.seq_pos@, old(self).search_pos as int),
         ensures
             [C01,C03,C04,C05,C06|fasta.search.frame] final(self).same_io(old(self)),
@@ -633,7 +636,7 @@ pub mod fasta {
         requires
             old(self).wf0(), old(self).filled(), old(self).buf_reader.cap() >= 2,
             partial(old(self).b(), old(self).buf_pos.start as int, old(self).buf_pos.seq_pos@, old(self).search_pos as int),
-            old(self).buf_pos.start < old(self).b().len(),
+            old(self).buf_pos.start < old(self).b().len(), old(self).b()[old(self).buf_pos.start as int] == 62u8,
             old(self).state == State::Incomplete,
             old(self).clean() ==> old(self).b().len() == old(self).buf_reader.cap() && at_end(old(self).b(), old(self).search_pos as int),
         ensures
@@ -662,7 +665,8 @@ pub mod fasta {
             invariant
                 [C01,C03,C04,C05,C06|fasta.resume.inv.frame] self.wf0() && self.filled() && self.f() == old(self).f() && self.gpos() == old(self).gpos()
                     && self.position == old(self).position && self.buf_reader.cap() >= 2 && self.state == State::Incomplete
-                    && self.buf_pos.start < self.b().len() && self.b()[self.buf_pos.start as int] == old(self).b()[old(self).buf_pos.start as int],
+                    && self.buf_pos.start < self.b().len() && self.b()[self.buf_pos.start as int] == old(self).b()[old(self).buf_pos.start as int]
+                    && self.b()[self.buf_pos.start as int] == 62u8,
                 [C01,C03,C04|fasta.resume.inv.partial] partial(self.b(), self.buf_pos.start as int, self.buf_pos.seq_pos@, self.search_pos as int),
                 [C14|fasta.resume.inv.errs] self.buf_reader.errs() == old(self).buf_reader.errs(),
                 [C01,C03,C04|fasta.resume.inv.no_compaction] !make_room ==> self.base() == old(self).base() && self.buf_pos.start == old(self).buf_pos.start
@@ -1113,6 +1117,130 @@ pub mod fasta {
 //@fn fasta::Record for OwnedRecord::seq ret=r tags=C13
 //@end
 }
+
+    // =============================================================================================
+    // record sets
+    // =============================================================================================
+    /// position of the '>' starting the record that follows the one being scanned from i on; |f| if there is none
+    pub open spec fn fa_bnd(f: Seq<u8>, i: int) -> int
+        decreases f.len() - i via fa_bnd_dec
+    {
+        if i < 0 || i >= f.len() { f.len() as int } else {
+            let k = nl(f, i);
+            if k + 1 >= f.len() { f.len() as int } else if f[k + 1] == 62u8 { k + 1 } else { fa_bnd(f, k + 1) }
+        }
+    }
+    #[via_fn]
+    proof fn fa_bnd_dec(f: Seq<u8>, i: int) { if 0 <= i <= f.len() { lemma_nl_bounds(f, i); } }
+    /// start of the i-th record counting from the record at p
+    pub open spec fn fa_start(f: Seq<u8>, p: int, i: int) -> int
+        decreases i
+    {
+        if i <= 0 { p } else { fa_bnd(f, fa_start(f, p, i - 1)) }
+    }
+    /// the line-end offsets of the record starting at p, as the format rules define them
+    pub open spec fn fa_lines(f: Seq<u8>, p: int) -> Seq<int> {
+        let q = fa_bnd(f, p);
+        if q < f.len() { lfs(f, p, q) } else {
+            let e = if f.len() > 0 && f[f.len() - 1] == 10u8 { f.len() - 1 } else { f.len() as int };
+            lfs(f, p, e).push(e)
+        }
+    }
+    proof fn lemma_bnd_scan(f: Seq<u8>, i: int, e: int)
+        requires 0 <= i <= e - 1, e < f.len(), f[e - 1] == 10u8, f[e] == 62u8, no_bnd(f, i, e - 1)
+        ensures fa_bnd(f, i) == e
+        decreases e - i
+    {
+        lemma_nl_bounds(f, i);
+        let k = nl(f, i);
+        if k < e - 1 {
+            assert(f[k] == 10u8);
+            lemma_bnd_scan(f, k + 1, e);
+        }
+    }
+    proof fn lemma_bnd_eof(f: Seq<u8>, i: int, e: int)
+        requires 0 <= i <= e <= f.len(), at_end(f, e), no_bnd(f, i, e)
+        ensures fa_bnd(f, i) == f.len()
+        decreases e - i
+    {
+        if i < f.len() {
+            lemma_nl_bounds(f, i);
+            let k = nl(f, i);
+            if k + 1 < f.len() {
+                assert(k < e);
+                assert(f[k] == 10u8);
+                lemma_bnd_eof(f, k + 1, e);
+            }
+        }
+    }
+    /// a record found complete / as the last one in the window has exactly the offsets the rules define
+    proof fn lemma_lines_complete(f: Seq<u8>, p: int, l: Seq<int>, e: int)
+        requires complete_l(f, p, l, e)
+        ensures fa_bnd(f, p) == e, fa_lines(f, p) == l
+    { lemma_bnd_scan(f, p, e); }
+    proof fn lemma_lines_eof(f: Seq<u8>, p: int, l: Seq<int>, e: int)
+        requires eofrec_l(f, p, l, e)
+        ensures fa_bnd(f, p) == f.len(), fa_lines(f, p) == l
+    { lemma_bnd_eof(f, p, e); }
+
+//@item fasta::RecordSet attrs="#[derive(Default)]"
+    impl RecordSet {
+        spec fn n(&self) -> int { self.npos as int }
+        spec fn wf(&self) -> bool {
+            self.npos <= self.positions@.len()
+            && forall|i: int| 0 <= i < self.npos ==> (#[trigger] self.positions@[i]).rwf(self.buffer@)
+        }
+    }
+//@impl_open fasta::RecordSet::len
+//@fn fasta::RecordSet::len ret=r tags=C04,C20
+//@spec
+        ensures
+            [C04,C20|fasta.RecordSet.len] r == self.n(),
+//@end
+//@fn fasta::RecordSet::is_empty ret=r tags=C04
+//@spec
+        ensures
+            [C04|fasta.RecordSet.is_empty] r == (self.n() == 0),
+//@end
+}
+
+//@impl_open fasta::BufferPosition::update
+//@fn fasta::BufferPosition::update tags=C04,C06
+//@spec
+        ensures
+            [C04|fasta.bufpos.update] final(self).same_as(other),
+//@body_start
+        broadcast use axiom_ref_items_vec;
+//@end
+}
+
+    /// every collected position is a complete record of b; all but possibly the last end before the end of b
+    #[verifier::opaque]
+    spec fn ps_valid(ps: Seq<BufferPosition>, k: int, b: Seq<u8>, last_open: bool) -> bool {
+        k <= ps.len() && forall|i: int| 0 <= i < k ==> (#[trigger] ps[i]).rwf(b) && (ps[i].l().last() < b.len() || (i == k - 1 && last_open))
+    }
+    /// the i-th collected position is the i-th record of the file counted from p0 (window of f starting at a)
+    #[verifier::opaque]
+    spec fn ps_lifted(ps: Seq<BufferPosition>, k: int, a: int, f: Seq<u8>, p0: int) -> bool {
+        k <= ps.len() && forall|i: int| 0 <= i < k ==> a + (#[trigger] ps[i]).start == fa_start(f, p0, i) && shl(ps[i].l(), a) == fa_lines(f, fa_start(f, p0, i))
+    }
+    proof fn lemma_rwf_prefix(bp: BufferPosition, b: Seq<u8>, b2: Seq<u8>)
+        requires bp.rwf(b), bp.l().last() < b.len(), b.len() <= b2.len(), b2.subrange(0, b.len() as int) == b
+        ensures bp.rwf(b2)
+    {
+        let e = bp.l().last();
+        assert(b == b2.subrange(0, b.len() as int));
+        lemma_lfs_window(b2, 0, b, bp.start as int, e);
+        assert(shl(lfs(b, bp.start as int, e), 0) =~= lfs(b, bp.start as int, e));
+        assert(b[bp.start as int] == b2[bp.start as int]);
+    }
+    proof fn lemma_ps_prefix(ps: Seq<BufferPosition>, k: int, b0: Seq<u8>, b: Seq<u8>)
+        requires ps_valid(ps, k, b0, false), b0.len() <= b.len(), b.subrange(0, b0.len() as int) == b0
+        ensures ps_valid(ps, k, b, false)
+    {
+        reveal(ps_valid);
+        assert forall|i: int| 0 <= i < k implies (#[trigger] ps[i]).rwf(b) && ps[i].l().last() < b.len() by { lemma_rwf_prefix(ps[i], b0, b); }
+    }
 
     } // verus!
 }
